@@ -76,5 +76,35 @@ Proof.
   apply gen_rsp_ordinal_to_ymd_eq; lia.
 Qed.
 
+(* ------------------------------------------------------------------ Parser::parse_integer *)
+Fixpoint p10 (n : nat) : Z := match n with O => 1 | S k => 10 * p10 k end.
+
+Lemma p10_pos : forall n, 0 < p10 n.
+Proof. induction n; cbn [p10]; lia. Qed.
+
+Lemma parse_integer_loop_eq : forall n fuel len i v s, (S n <= fuel)%nat -> len - i = Z.of_nat n -> 0 <= v -> (v + 1) * p10 n <= 4294967296 ->
+  (match gen_rsp_parse_integer_for1 fuel len i v s with LReturn r => r | LFuel => None | LDone (v', s') => Some (v', s') end) = rs_parse_int n s v.
+Proof.
+  induction n as [|n IH]; intros fuel len i v s Hf Hl Hv Hb; (destruct fuel as [|f]; [lia|]); cbn [gen_rsp_parse_integer_for1 rs_parse_int].
+  - replace (i <? len) with false by (symmetry; apply Z.ltb_ge; lia). reflexivity.
+  - replace (i <? len) with true by (symmetry; apply Z.ltb_lt; lia).
+    destruct s as [|c t]; [reflexivity|]. cbn [isend cur inc tl].
+    destruct (is_digit c) eqn:D; [|reflexivity]. cbv zeta.
+    assert (Hc : 48 <= c <= 57) by (unfold is_digit in D; lia).
+    pose proof (p10_pos n) as Pn. cbn [p10] in Hb.
+    assert (10 * v + 9 < 4294967296) by nia.
+    rewrite (wrap_u32_small (10 * v)) by lia. rewrite (wrap_u32_small (10 * v + (c - 48))) by lia.
+    apply IH; try lia. nia.
+Qed.
+
+Theorem gen_rsp_parse_integer_eq : forall s len, 0 <= len <= 9 -> gen_rsp_parse_integer s len = rs_parse_int (Z.to_nat len) s 0.
+Proof.
+  intros s len H. unfold gen_rsp_parse_integer. cbv zeta.
+  apply parse_integer_loop_eq; try lia.
+  assert (E : len = 0 \/ len = 1 \/ len = 2 \/ len = 3 \/ len = 4 \/ len = 5 \/ len = 6 \/ len = 7 \/ len = 8 \/ len = 9) by lia.
+  repeat (destruct E as [->|E]; [vm_compute; discriminate|]). subst len. vm_compute. discriminate.
+Qed.
+
 Print Assumptions gen_rsp_ordinal_to_ymd_eq.
 Print Assumptions gen_rsp_iso_to_ymd_eq.
+Print Assumptions gen_rsp_parse_integer_eq.
